@@ -786,6 +786,23 @@ pub fn inject(kind: &str, kv: &KV) -> Box<dyn Inst> {
             let st = signalo_filters::classify::schmitt::State { on: kv_str(kv, "on") == "true" };
             Box::new(Schmitt::<Q, Q>::from_guts((cfg, st)))
         }
+        // a tap ring filled by hand to any level (reachable only through the public state + `from_guts`): the filter
+        // tops it up with the current sample before it convolves / delays
+        "convolve" => {
+            let c = kv_qs(kv, "c");
+            with_n!(c.len(), N => {
+                let mut taps: CircularBuffer<N, Q> = CircularBuffer::default();
+                for t in kv_qs(kv, "taps") { taps.push_back(t); }
+                let st = signalo_filters::convolve::State { taps };
+                Box::new(Convolve::<Q, N>::from_guts((ConvolveConfig { coefficients: arr(c) }, st))) as Box<dyn Inst>
+            })
+        }
+        "delay" => with_n!(kv_n(kv, "N"), N => {
+            let mut taps: CircularBuffer<N, Q> = CircularBuffer::default();
+            for t in kv_qs(kv, "taps") { taps.push_back(t); }
+            let st = signalo_filters::delay::State { taps };
+            Box::new(Delay::<Q, N>::from_guts(st)) as Box<dyn Inst>
+        }),
         k => panic!("harness: cannot inject kind {}", k),
     }
 }
